@@ -20,6 +20,21 @@ CHECKS = {
    note="Trusted: TLC, hook H1, encodings. MayAccept classes (omitted/trailing `;`, trailing comma in list/map, unregistered operator in prefix position, > 200 tokens) can be accepted or rejected but never with another tree.",
    technique="PlusCal Pratt machine vs reference grammar verdicts: TLC exhaustive over token strings, replay in the real parser, trace validation of corrupted programs",
    design="5/C05"),
+ "C01": dict(
+   text="Termination and crash-freedom are checked as safety properties of the two machines (Lexer: every input up to 4/5 characters incl. 2-, 3- and 4-byte characters, deadlock check on, step budget, every slice on a character boundary; Pratt: every token string up to 4/5 tokens, step budget, bounded call stack, nesting budget exercised with MaxDepth = 3, termination under fairness on the smallest configuration). Every input TLC enumerated is then run through parse_expression, execute, expr() and describe() in a supervised child process (panic caught; abort and hang detected by exit status / watchdog and bisected to the input), 31 pump families derived from the machines' recursion cycles are scaled to 10^5 (10^6 thorough), and random UTF-8 inputs are run and their recorded outcomes validated by TLC against the Lexer machine and the reference grammar.",
+   note="The abort/hang half is observed by process supervision; the specification contributes the input families, the recursion cycles and the termination argument. Trusted: TLC, watchdogs (120-300 s for millisecond work), 2 MiB thread stack in a debug build.",
+   technique="TLA+ Lexer/Pratt machines (TLC: deadlock, step budget, depth bound, liveness) + supervised replay of enumerated inputs and pump families + trace validation of random inputs",
+   design="5/C01"),
+ "C11": dict(
+   text="On the specification TLC checks that wrapping every sub-expression of every tree the Pratt machine returns in 1 and 2 redundant parentheses leaves RefParse unchanged. Every accepted program of the operator, pair, decoration and delimiter configurations is parsed by the real parser in 4 (thorough 16) seeded layouts (whitespace strings over space/tab/CR/LF at every boundary, none next to delimiters): token kinds/texts and tree must not change; the wrapped token strings are parsed with every redundant parenthesis written 1, 2, 5 times and one pair 64 times; random programs under random layouts are validated by TLC against the reference grammar on the reported tokens.",
+   note="Known finding C11/nesting-budget: beyond 256 nesting levels extra parentheses are refused (documented limit of the C01 repair). Names are not operator words. Trusted: TLC, hook H1, encodings.",
+   technique="TLA+ Render/Wrap theorem checked by TLC + replay of laid-out and parenthesised variants in the real parser + trace validation",
+   design="5/C11"),
+ "C12": dict(
+   text="TLC checks on the specification that RefParse(Render(t)) = t and that Render is idempotent for every tree the Pratt machine returns on all token strings up to 4 tokens, all operator pairs in 6 shapes and 14 decorations (all triples in thorough) - validating where parentheses are needed. Each such program is parsed by the real parser, expr() is re-parsed (must be equal), rendered again (must be the same string), and the token sequence of expr() is given to TLC, which checks with the reference grammar that the text means the tree, independently of the implementation's parser. Random programs get the same checks.",
+   note="The text of expr() is never compared with Render (spacing, redundant parentheses are free). Trusted: TLC, hook H1, encodings.",
+   technique="TLA+ Render vs RefParse round-trip theorem (TLC) + real expr() round trips + trace validation of rendered text against the reference grammar",
+   design="5/C12"),
 }
 NOT_YET = "check not built yet (build in progress; see DESIGN.md section 11)"
 
